@@ -100,7 +100,7 @@ reg("C03", exc_ops={"AddLinks", "IndexBatchCrawl"}, nontrivial=nt_links, hook="l
     profile={"nlrus": 9, "raw": 0.1, "long": 0.2}, n=(160, 2000), title="Link multigraph")
 reg("C04", exc_ops=WE_OPS, nontrivial=nt_we, hook="resolve", mc=[("core", 4, 5), ("we", 4, 5)], gen_mc="we",
     weights={"CreateWe": 14, "DeleteWe": 8, "AddPrefix": 10, "RemovePrefix": 8, "MovePrefix": 8,
-             "AddPage": 14},
+             "AddPage": 14, "AddRule": 8, "RemoveRule": 6},
     profile={"raw": 0.0, "long": 0.15, "bigids": 0.35}, title="Longest-prefix resolution")
 reg("C05", exc_ops=set(), nontrivial=nt_we, hook="wepages", obs_fail=True,
     # "with correct marks": the marks the webentity queries report are compared with the page enumeration
@@ -111,7 +111,7 @@ reg("C05", exc_ops=set(), nontrivial=nt_we, hook="wepages", obs_fail=True,
 reg("C06", exc_ops=WRITE_OPS | RULE_OPS, nontrivial=nt_we, hook="potential",
     mc=[("core", 4, 5), ("we", 4, 5), ("wesub", 0, 5)],
     gen_mc="we",
-    weights={"AddRule": 12, "RemoveRule": 4, "AddPage": 25},
+    weights={"AddRule": 14, "RemoveRule": 4, "AddPage": 25, "DeleteWe": 8},
     profile={"raw": 0.0, "long": 0.15, "adversarial": 0.4}, title="Automatic creation")
 reg("C07", exc_ops=set(), nontrivial=nt_links, hook="network", obs_fail=False,
     weights={"AddLinks": 24, "IndexBatchCrawl": 16, "CreateWe": 10, "AddPrefix": 10, "RemovePrefix": 5, "DeleteWe": 5},
@@ -174,13 +174,13 @@ reg("C09", exc_ops=set(), nontrivial=nt_pages, hook="pagination", obs_fail=False
     mc=[("core", 4, 5), ("bst", 5, 6), ("pag", None, None), ("token", None, None)], gen_mc=("core", "bst"),
     extra_sources=(tlcgen.tlc_traces, tlcgen.repo_test_traces, token_source),
     weights={"Paginate": 40, "AddPage": 30, "AddPages": 8, "CreateWe": 8, "AddPrefix": 8, "AddLinks": 4,
-             "IndexBatchCrawl": 4, "Clear": 0, "DeleteWe": 2, "RemovePrefix": 2, "MovePrefix": 2},
+             "IndexBatchCrawl": 4, "Clear": 3, "DeleteWe": 2, "RemovePrefix": 2, "MovePrefix": 2},
     profile={"raw": 0.0, "long": 0.2, "nlrus": 18, "extend": 0.3, "continue": 0.55, "concentrate": 1,
              "nestsib": 0.6}, steps=(24, 32),
     title="Page pagination")
 reg("C10", exc_ops=set(), nontrivial=nt_links, hook="paglinks", obs_fail=False,
     weights={"PagLinks": 40, "AddLinks": 30, "IndexBatchCrawl": 12, "AddPage": 12, "CreateWe": 12, "AddPrefix": 8,
-             "Clear": 0, "DeleteWe": 1, "RemovePrefix": 1, "MovePrefix": 2},
+             "Clear": 3, "DeleteWe": 1, "RemovePrefix": 1, "MovePrefix": 2},
     profile={"raw": 0.0, "long": 0.2, "nlrus": 16, "extend": 0.2, "continue": 0.8, "concentrate": 1,
              "homelinks": 0.45}, steps=(24, 32), n=(240, 2000),
     title="Pagelink pagination")
